@@ -75,6 +75,9 @@ M = [
     ("C17", "revert-recursion-guard", S + "suit/envelope.py", "        try:\n            return super().from_cbor(cbstr)\n        except RecursionError:\n            raise ValueError(\"Unable to parse the envelope: the structure is nested too deeply\")", "        return super().from_cbor(cbstr)"),
     ("C18", "module-level-cache-by-component-name", S + "suit/manifest.py", '            if isinstance(uuid_obj, dict):\n                if "name" not in uuid_obj:\n                    raise ValueError(f"Unable to parse UUID: {obj}")\n', '            if isinstance(uuid_obj, dict):\n                if "name" not in uuid_obj:\n                    raise ValueError(f"Unable to parse UUID: {obj}")\n                if uuid_obj["name"] in _UUID_CACHE:\n                    return cls(_UUID_CACHE[uuid_obj["name"]])\n'),
     ("C18", "payload-names-through-set", S + "suit/payloads.py", "        for k, v in obj.items():\n            if all(c in string.hexdigits for c in v):", "        for k, v in ((k, obj[k]) for k in set(obj)):\n            if all(c in string.hexdigits for c in v):"),
+    ("C10", "cache-output-not-truncated", S + "cmd_cache_create.py", '        with open(output_file, "wb") as f:', '        import os as _os\n        with open(output_file, "r+b" if _os.path.exists(output_file) else "wb") as f:'),
+    ("C02", "envelope-appended-to-existing-output", S + "input_output.py", '        with open(file_name, "wb") as fh:\n            fh.write(self.prepare_suit_data(data))', '        with open(file_name, "ab") as fh:\n            fh.write(self.prepare_suit_data(data))'),
+    ("C03", "json-output-not-truncated", S + "input_output.py", '        with open(file_name, "w", encoding=cls.DEFAULT_ENCODING) as fh:\n            json.dump(cls.parse_json_submanifests(data)', '        import os as _os\n        with open(file_name, "r+" if _os.path.exists(file_name) else "w", encoding=cls.DEFAULT_ENCODING) as fh:\n            json.dump(cls.parse_json_submanifests(data)'),
     ("C18", "payload-file-memo-by-path", S + "cmd_cache_create.py", '            with open(input_file, "rb") as f:\n                data = f.read()\n\n            cache.add_cache_slot(uri, data)', '            with open(input_file, "rb") as f:\n                data = globals().setdefault("_FILES", {}).setdefault(input_file, f.read())\n\n            cache.add_cache_slot(uri, data)'),
     ("C18", "parsed-envelope-memo-by-path-and-size", S + "input_output.py", '        with open(file_name, "rb") as fh:\n            data = fh.read()\n            suit = SuitEnvelopeTagged.from_cbor(data)\n            return suit.to_obj()', '        with open(file_name, "rb") as fh:\n            data = fh.read()\n            memo = globals().setdefault("_PARSED", {})\n            key = (str(file_name), len(data))\n            if key not in memo:\n                memo[key] = SuitEnvelopeTagged.from_cbor(data).to_obj()\n            import copy\n            return copy.deepcopy(memo[key])'),
     ("C19", "list-without-top-built-late", "ncs/root_with_nordic_top_envelope.yaml.jinja2", "{%- set component_list_without_top = component_list[:] %}\n{%- if top is defined %}", "{%- set component_list_without_top = component_list %}\n{%- if top is defined %}"),
